@@ -25,7 +25,8 @@ P('C01', 'other',
 
 P('C02', 'other',
   ['svd.matrix_skeleton.abs.l', 'svd.matrix_skeleton.abs.r', 'svd.matrix_skeleton.abs.m', 'svd.matrix_svd',
-   'transformation.truncate.eigh', 'transformation.truncate.svd', 'transformation.orthogonalize'], 60,
+   'transformation.truncate.eigh', 'transformation.truncate.svd', 'transformation.truncate.eigh.stab',
+   'transformation.truncate.svd.stab', 'transformation.orthogonalize'], 60,
   ['L-ROUND (Oseledets 2011 Thm 3.1/Cor 2.4: orthonormal kept factors + per-step discarded energy <= delta^2 => total error <= sqrt(d-1) delta)',
    'L-EY (Eckart-Young)', 'L-ORTHNORM (orthonormal neighbours preserve the Frobenius norm)'],
   'Contract-based (all inputs): rank selection of matrix_skeleton / matrix_svd against the spec function tail(j)=sum_{t>=j} s_t^2 '
@@ -99,20 +100,20 @@ P('C07', 'other', ['utils._info_appr', 'als._optimize_core.slices'], 10,
   NOTE_T1 + NOTE_T3, 'deductive VCs from the real AST (ttvc+z3) + bounded run-time contracts',
   ['_lstsq normal equations', 'als interface invariant', 'als_func'])
 
-P('C08', 'other', ['maxvol.maxvol', 'maxvol.maxvol_rect', 'utils._maxvol'], 20, ['L-MAXVOL', 'L-SM'],
+P('C08', 'other', ['maxvol.maxvol', 'maxvol.maxvol_rect', 'maxvol.maxvol_rect.no_upper_limit', 'utils._maxvol', 'sig.maxvol'], 20, ['L-MAXVOL', 'L-SM'],
   'Contract-based: maxvol: ValueError iff n<=r, row indices from divmod stay in [0,n), leaving the loop by break implies max|B|<=e, '
   'shapes; maxvol_rect: ValueError iff inconsistent limits, number of rows in [r+dr_min, min(n,r+dr_max)], early stop implies every '
   'candidate has F<=e^2; _maxvol dispatch. Bounded: A=B A[I], B[I]=I, distinctness incl. zero/duplicate rows, conditioning to 1e8.',
   NOTE_T1 + NOTE_T3, 'deductive VCs from the real AST (ttvc+z3) + bounded run-time contracts', ['rank-one update invariant B A[I] = A'])
 
-P('C09', 'other', ['frames.C09'], 90, [],
+P('C09', 'proof', ['frames.C09', 'act_one.copy.tt', 'transformation.orthogonalize_left.inplace', 'transformation.orthogonalize_right.inplace'], 90, [],
   'Contract-based frame analysis (frames/): for every exported function a declared frame contract (modifies / result-aliases), '
   'checked by a modular alias/effect abstract interpretation of the real ASTs over all paths. Bounded: byte snapshots and '
   'np.shares_memory for every exported function over C/F/strided layouts.',
   'frames trusted base: alias/effect table of NumPy/SciPy callables (spot-checked), callbacks do not write their arguments (A-CB). ' + NOTE_T3,
   'modular alias/effect analysis against declared frame contracts + bounded snapshot checks')
 
-P('C10', 'other', ['frames.C10', 'utils._rand'], 90, [],
+P('C10', 'proof', ['frames.C10', 'utils._rand'], 90, [],
   'Contract-based effect analysis (frames/): no function reads the global NumPy generator, every draw goes through a generator '
   'derived from _rand(seed), default dicts are written before read; _rand: None/int -> default_rng(seed), otherwise the argument. '
   'Bounded: bitwise repeatability under perturbed global state for every seeded function, default-dict reuse.',
@@ -121,14 +122,15 @@ P('C10', 'other', ['frames.C10', 'utils._rand'], 90, [],
 
 P('C11', 'other',
   ['transformation.orthogonalize', 'act_two.add.tt_tt', 'svd.matrix_svd', 'svd.matrix_skeleton.abs.m',
-   'transformation.truncate.eigh', 'props.erank', 'act_two.accuracy'], 40, [],
+   'transformation.truncate.eigh', 'transformation.truncate.svd', 'svd.svd', 'props.erank', 'act_two.accuracy',
+   'sig.svd', 'sig.transformation', 'sig.act_one', 'sig.act_two', 'sig.core', 'sig.anova', 'sig.anova_func', 'sig.cross', 'sig.als'], 40, [],
   'Contract-based (all shapes incl. d=2, n=1, r=1, over-ranked): well-formedness of the results of orthogonalize, add, truncate; '
   'safety obligations: every division / sqrt in matrix_svd (the guarded inverse), erank (a != 0 for d>=3), accuracy (sentinel -1 '
   'exactly when |z2| < 1e-100) has an in-domain argument. Bounded: finiteness in floating point over the degenerate families '
   '(exactly-zero tensor, rank-deficient, over-ranked, constant data, repeated samples) through every routine and flag.',
   NOTE_T1 + NOTE_T3, 'deductive VCs (well-formedness, division/sqrt safety) + bounded run-time contracts', [])
 
-P('C12', 'other', ['func.func_basis', 'func.func_sum', 'func.signatures'], 10, ['L-CHEB', 'L-CC', 'L-DIFF'],
+P('C12', 'other', ['func.func_basis', 'func.func_sum', 'sig.func', 'sig.func_full', 'sig.grid'], 10, ['L-CHEB', 'L-CC', 'L-DIFF'],
   'Contract-based: three-term recurrence of func_basis, Clenshaw-Curtis formula of func_sum, call-signature conformance of every '
   'SciPy call in func.py against inspect.signature of the installed callee (the lstsq(rcond=) defect). Bounded: exact polynomial '
   'oracle for coefficients, evaluation, integration, differentiation, TT vs dense.',
@@ -138,7 +140,7 @@ P('C13', 'other', ['anova.cores_1.pattern'], 5, [],
   'Contract-based: the 2x2 core pattern of ANOVA.cores_1 and its chain value f0 + sum f1_k. Bounded: conditional means, order 2, '
   'noise, sparse subsets, functional variant.', NOTE_T1 + NOTE_T3, 'deductive VCs + bounded run-time contracts', [])
 
-P('C14', 'other', ['sample.sample_lhs.counts'], 5, ['L-SUMPROD'],
+P('C14', 'other', ['sample.sample_lhs.counts', 'sig.sample'], 5, ['L-SUMPROD'],
   'Contract-based: sample_lhs uses every index floor(m/n) or ceil(m/n) times. Bounded: chain of conditionals against the dense '
   'distribution for every multi-index (auditing generator), shapes/bounds of all samplers, uniqueness, sample_tt layout.',
   NOTE_T1 + NOTE_T3, 'deductive VCs + bounded auditing-generator checks', [])
@@ -148,18 +150,19 @@ P('C15', 'other', ['optima.optima_tt.order'], 3, [],
   'arg-optima for full beams and rank-1 tensors, quantised and functional variants. Known finding: optima_tt rank-1 with pruned beam.',
   NOTE_T1 + NOTE_T3, 'deductive VCs + bounded dense comparison', [])
 
-P('C16', 'other', ['core.core_stab', 'transformation.orthogonalize.stab', 'act_two.mul_scalar.stab', 'act_one.norm.stab',
+P('C16', 'other', ['core.core_stab', 'transformation.orthogonalize.stab', 'transformation.truncate.eigh.stab', 'act_two.mul_scalar.stab', 'act_one.norm.stab',
                    'act_two.accuracy'], 20, [],
   'Contract-based (bookkeeping over the reals): core_stab (mantissa in [1,2), integer exponent, input = 2^p mantissa), exponent '
   'accumulation in mul_scalar, (sqrt v, p/2) in norm, exponent difference and saturation branches of accuracy. Bounded: d up to '
   '3000, total norms 2^+-30000 against an unbounded-exponent reference.',
   NOTE_T1 + NOTE_T3, 'deductive VCs + bounded big-exponent reference', [])
 
-P('C17', 'other', ['grid.ind_tt_to_qtt', 'grid.ind_qtt_to_tt'], 10, [],
+P('C17', 'other', ['grid.ind_tt_to_qtt.gate', 'core.core_tt_to_qtt.gate', 'grid.ind_tt_to_qtt', 'grid.ind_qtt_to_tt'], 10, [],
   'Contract-based: ValueError iff the mode size is not a power of two; shape of the results; single index = batch of one. Bounded: '
   'exhaustive bit maps for q*d <= 10/12, TT<->QTT conversions.', NOTE_T1 + NOTE_T3, 'deductive VCs + exhaustive enumeration', [])
 
-P('C18', 'other', ['grid.uniform.roundtrip', 'grid.grid_prep_opts'], 10, [],
+P('C18', 'other', ['grid.ind_to_poi.uni', 'grid.ind_to_poi.cheb', 'grid.poi_scale.uni', 'grid.poi_scale.cheb', 'grid.poi_to_ind.uni',
+                   'grid.poi_to_ind.cheb', 'grid.grid_prep_opts'], 10, [],
   'Contract-based over the reals: uniform-grid end points, range, round trip poi_to_ind(ind_to_poi(i)) = i, nearest node, clamping; '
   'grid_prep_opts raises iff lengths are inconsistent. Bounded: floating-point round trips exhaustive for n<=40/64 over many boxes, '
   'Chebyshev grid, grid_flat, cdf_getter.', NOTE_T1 + NOTE_T3, 'deductive VCs over reals + exhaustive floating-point enumeration', [])
@@ -171,7 +174,7 @@ P('C19', 'other', ['utils._vector_index_prepare', 'utils._vector_index_expand', 
   'ValueError iff not representable), vector_delta / delta element pattern, const without zero list. Bounded: exhaustive positions '
   'q<=4/6, zero lists, poly, random constructors.', NOTE_T1 + NOTE_T3, 'deductive VCs (loop invariants, induction) + exhaustive enumeration', [])
 
-P('C20', 'other', ['svd.svd_incomplete.shapes'], 5, ['L-CROSS'],
+P('C20', 'other', ['svd.svd_incomplete.shapes', 'sig.svd'], 5, ['L-CROSS'],
   'Contract-based: exception-freedom and shapes of svd_incomplete given the layout contract of sample_tt (the 3-D array reaching '
   'lstsq was a failed obligation). Bounded: recovery of Gaussian rank-rho tensors (an almost-all statement).',
   NOTE_T1 + NOTE_T3, 'deductive VCs + bounded recovery checks', [])
